@@ -37,8 +37,10 @@ from typing import Any, Dict, Iterator, List, Optional, Sequence, Set, Tuple
 VERIF_DIR = pathlib.Path(__file__).resolve().parent.parent
 REPO_DIR = pathlib.Path(os.environ.get("VERIF_REPO", "/repo"))
 KNOWN_PATH = VERIF_DIR / "KNOWN_FINDINGS.txt"
-EVIDENCE_DIR = VERIF_DIR / "evidence"
-REPLAY_DIR = VERIF_DIR / "replays"
+# The two overrides exist for trial runs against deliberately broken trees (tools/try_seed.sh)
+# so that they do not overwrite the committed evidence and replays.
+EVIDENCE_DIR = pathlib.Path(os.environ.get("VERIF_EVIDENCE_DIR", VERIF_DIR / "evidence"))
+REPLAY_DIR = pathlib.Path(os.environ.get("VERIF_REPLAY_DIR", VERIF_DIR / "replays"))
 
 N_WORKERS = int(os.environ.get("VERIF_WORKERS", "16"))
 
@@ -434,7 +436,7 @@ def main(argv: Optional[Sequence[str]] = None) -> int:
         "wall_s": round(wall, 2),
         "violations": len(new_signatures),
     }
-    EVIDENCE_DIR.mkdir(exist_ok=True)
+    EVIDENCE_DIR.mkdir(parents=True, exist_ok=True)
     (EVIDENCE_DIR / f"{property_id}.json").write_text(
         json.dumps(evidence, indent=1, ensure_ascii=True) + "\n", encoding="utf-8"
     )
